@@ -198,28 +198,43 @@ impl Program {
     /// unreachable slot's body cannot influence the execution, so those assignments are
     /// represented by the one with that slot empty).
     pub fn reachable(&self) -> bool {
+        self.reachable_with(Ext::default())
+    }
+
+    /// As `reachable`, for a script whose remote itself commands some lanes (`ext`).
+    pub fn reachable_with(&self, ext: Ext) -> bool {
         let has = |slots: &[usize], f: &dyn Fn(&H) -> bool| slots.iter().any(|&s| self.slots[s].as_ref().map(|h| h.contains(f)).unwrap_or(false));
         let l0 = [ROOT, START, STOP];
         let l1 = [ROOT, START, STOP, V_EV, V_SET];
         let l2 = [ROOT, START, STOP, V_EV, V_SET, W_EV, W_SET];
-        let v_live = has(&l0, &|h| matches!(h, H::SetV(_)));
-        if (self.slots[V_EV].is_some() || self.slots[V_SET].is_some()) && !v_live {
+        if (self.slots[V_EV].is_some() || self.slots[V_SET].is_some()) && !(ext.v || has(&l0, &|h| matches!(h, H::SetV(_)))) {
             return false;
         }
-        if (self.slots[W_EV].is_some() || self.slots[W_SET].is_some()) && !has(&l1, &|h| matches!(h, H::SetW(_))) {
+        if (self.slots[W_EV].is_some() || self.slots[W_SET].is_some()) && !(ext.w || has(&l1, &|h| matches!(h, H::SetW(_)))) {
             return false;
         }
-        if self.slots[M_UPD].is_some() && !has(&l2, &|h| matches!(h, H::Upd(..))) {
+        let upd = ext.upd || has(&l2, &|h| matches!(h, H::Upd(..)));
+        if self.slots[M_UPD].is_some() && !upd {
             return false;
         }
-        if self.slots[M_REM].is_some() && !(has(&l2, &|h| matches!(h, H::Rem(_))) && has(&l2, &|h| matches!(h, H::Upd(..)))) {
+        if self.slots[M_REM].is_some() && !((ext.rem || has(&l2, &|h| matches!(h, H::Rem(_)))) && upd) {
             return false;
         }
-        if self.slots[M_CLR].is_some() && !has(&l2, &|h| matches!(h, H::Clr)) {
+        if self.slots[M_CLR].is_some() && !(ext.clr || has(&l2, &|h| matches!(h, H::Clr))) {
             return false;
         }
         true
     }
+}
+
+/// Which lane events a script's remote triggers directly.
+#[derive(Clone, Copy, Debug, Default)]
+pub struct Ext {
+    pub v: bool,
+    pub w: bool,
+    pub upd: bool,
+    pub rem: bool,
+    pub clr: bool,
 }
 
 impl fmt::Display for Program {
@@ -333,7 +348,7 @@ impl Block {
 
 /// All distributions of exactly `total` nodes over the slots (smallest-first order is obtained by
 /// calling this for total = 0, 1, 2, ...).
-pub fn blocks(trees: &mut Trees, total: usize, with_start_stop: bool) -> Vec<Block> {
+pub fn blocks(trees: &mut Trees, total: usize, with_start_stop: bool, require_level0: bool) -> Vec<Block> {
     fn rec(slot: usize, left: usize, cur: &mut [usize; 10], out: &mut Vec<[usize; 10]>) {
         if slot == 10 {
             if left == 0 {
@@ -352,7 +367,7 @@ pub fn blocks(trees: &mut Trees, total: usize, with_start_stop: bool) -> Vec<Blo
     let mut out = vec![];
     for sizes in dists {
         // cheap necessary condition for reachability: lane slots need a level-0 slot
-        if sizes[ROOT] + sizes[START] + sizes[STOP] == 0 && total > 0 {
+        if require_level0 && sizes[ROOT] + sizes[START] + sizes[STOP] == 0 && total > 0 {
             continue;
         }
         if !with_start_stop && sizes[START] + sizes[STOP] > 0 {
